@@ -63,6 +63,9 @@ func policies() []policy {
 		// patterns are regular expressions over the host text: they also apply to hosts that are address literals
 		{"domains-literal-text", nil, nil, []string{"^93\\.184\\.216\\.34$", "^fd12:", "^::ffff:", "^8\\.8\\."}},
 		{"domains-catch-all", nil, nil, []string{".*"}},
+		// IPv4 subnets written as IPv4-mapped IPv6 CIDRs (net.ParseCIDR accepts them; they name IPv4 addresses)
+		{"block-v4-mapped-notation", []string{"::ffff:10.0.0.0/104", "::ffff:127.0.0.0/104", "::ffff:192.168.0.0/112"}, nil, nil},
+		{"allow-v4-mapped-notation", nil, []string{"::ffff:93.184.0.0/112"}, nil},
 	}
 }
 
@@ -130,7 +133,11 @@ func mkRef(p policy) refPolicy {
 				r.unparsable = append(r.unparsable, s)
 				continue
 			}
-			out = append(out, pf.Masked())
+			pf = pf.Masked()
+			if pf.Addr().Is4In6() && pf.Bits() >= 96 {
+				pf = netip.PrefixFrom(pf.Addr().Unmap(), pf.Bits()-96) // the IPv4 subnet it names
+			}
+			out = append(out, pf)
 		}
 		return out
 	}
